@@ -438,6 +438,117 @@ Proof.
     + apply (run_sched_done (repeat n (plen p0))); auto. apply Hdone; lia.
 Qed.
 
+
+(* --- events: every task executes exactly the line sequence of its own uninterrupted run ------------------------- *)
+Fixpoint ltrace (idx : Z) (part : list Z) (p : prog) (l : lstate) : list Z :=
+  match p with
+  | PDone => []
+  | PGate lb k => lb :: ltrace idx part k l
+  | PAct a k => let l' := do_act_l draw idx part a l in if l_crash l' then [] else ltrace idx part k l'
+  | PIf c km kh => if eval_cond idx c shared0 l then ltrace idx part kh l else ltrace idx part km l
+  end.
+
+Lemma settle_trace idx part p :
+  prog_local p = true -> forall sh l p' sh' l', val_local l ->
+  settle draw idx part p sh l = (p', sh', l') -> ltrace idx part p' l' = ltrace idx part p l.
+Proof.
+  induction p as [|lb k IH|a k IH|c km IHm kh IHh]; simpl; intros Hp sh l p' sh' l' Hl E.
+  - inversion E; subst; reflexivity.
+  - inversion E; subst; reflexivity.
+  - apply andb_true_iff in Hp as [Ha Hk].
+    destruct (do_act_local draw idx part a sh l Ha Hl) as [E1 Hl1]. rewrite E1 in E.
+    destruct (l_crash (do_act_l draw idx part a l)).
+    + inversion E; subst; reflexivity.
+    + apply (IH Hk _ _ _ _ _ Hl1 E).
+  - apply andb_true_iff in Hp as [Hp Hh]. apply andb_true_iff in Hp as [Hc Hm].
+    destruct c; simpl in Hc; try discriminate. simpl in E. simpl.
+    destruct (c_has (l_cache l) (id, idx)); eauto.
+Qed.
+
+Definition proj (tid : nat) (evs : list (Z * Z)) : list (Z * Z) := filter (fun e => fst e =? Z.of_nat tid) evs.
+Definition tag (tid : nat) (ls : list Z) : list (Z * Z) := map (fun lb => (Z.of_nat tid, lb)) ls.
+
+Definition EI (g : gstate) : Prop :=
+  forall tid t0 t, nth_error tasks0 tid = Some t0 -> nth_error (g_tasks g) tid = Some t ->
+    proj tid (rev (g_events g)) ++ tag tid (ltrace (t_idx t0) (t_part t0) (t_prog t) (t_l t))
+    = tag tid (ltrace (t_idx t0) (t_part t0) p0 (t_l t0)).
+
+(* what settle_task does to the trace of the task it advances *)
+Lemma settle_task_E g tid p :
+  GW g ->
+  (forall m t0 t, m <> tid -> nth_error tasks0 m = Some t0 -> nth_error (g_tasks g) m = Some t ->
+     proj m (rev (g_events g)) ++ tag m (ltrace (t_idx t0) (t_part t0) (t_prog t) (t_l t))
+     = tag m (ltrace (t_idx t0) (t_part t0) p0 (t_l t0))) ->
+  (forall t0 t, nth_error tasks0 tid = Some t0 -> nth_error (g_tasks g) tid = Some t ->
+     prog_local p = true /\
+     proj tid (rev (g_events g)) ++ tag tid (ltrace (t_idx t0) (t_part t0) p (t_l t))
+     = tag tid (ltrace (t_idx t0) (t_part t0) p0 (t_l t0))) ->
+  EI (settle_task draw b tid p g).
+Proof.
+  intros [Hsh HF] Ho Hp. unfold settle_task.
+  assert (Hsame : EI g -> EI g) by auto.
+  destruct (nth_error (g_tasks g) tid) as [t|] eqn:Et.
+  2:{ intros m t0 t H0 Hm. destruct (Nat.eq_dec m tid) as [->|Hne]; [congruence | apply Ho; auto]. }
+  destruct (nth_error (g_sh g) (slot b tid)) as [sh|] eqn:Es.
+  2:{ exfalso. assert (Hlt : (tid < length tasks0)%nat).
+      { rewrite <- (Forall2_len _ _ _ HF). apply nth_error_Some. congruence. }
+      destruct (Hslot tid Hlt) as [s Hs]. rewrite Hsh in Es. congruence. }
+  destruct (settle draw (t_idx t) (t_part t) p sh (t_l t)) as [[p' sh'] l'] eqn:E.
+  intros m t0m tm H0 Hm. simpl in Hm. simpl g_events.
+  destruct (Nat.eq_dec m tid) as [->|Hne].
+  - rewrite (nth_error_upd_nth_eq _ _ _ _ Et) in Hm. inversion Hm; subst tm. simpl.
+    destruct (Forall2_nth_error _ _ _ _ _ HF Et) as (t0' & E0' & HW). rewrite H0 in E0'; inversion E0'; subst t0'.
+    destruct (Hp t0m t H0 eq_refl) as [Hpl Htr].
+    pose proof (settle_trace (t_idx t) (t_part t) p Hpl _ _ _ _ _ (w_val _ _ HW) E) as Hst.
+    rewrite (w_idx _ _ HW), (w_part _ _ HW) in Hst. rewrite Hst. exact Htr.
+  - rewrite nth_error_upd_nth_neq in Hm by auto. apply (Ho m t0m tm Hne H0 Hm).
+Qed.
+
+Lemma EI_init : EI {| g_sh := shs; g_tasks := tasks0; g_events := [] |}.
+Proof.
+  intros tid t0 t H0 Ht. simpl in *. rewrite H0 in Ht; inversion Ht; subst t.
+  rewrite Forall_forall in Hinit. destruct (Hinit t0 (nth_error_In _ _ H0)) as [Hp _]. rewrite Hp. reflexivity.
+Qed.
+
+Lemma start_prefix_E n : (n <= length tasks0)%nat ->
+  EI (fold_left (fun g tid => settle_task draw b tid p0 g) (seq 0 n)
+                {| g_sh := shs; g_tasks := tasks0; g_events := [] |}).
+Proof.
+  induction n as [|n IH]; intros Hn; [apply EI_init|].
+  rewrite seq_S, fold_left_app. simpl.
+  destruct (start_prefix n ltac:(lia)) as (HG & _ & _ & Hrest).
+  specialize (IH ltac:(lia)).
+  set (g := fold_left _ (seq 0 n) _) in *.
+  apply settle_task_E; [exact HG| |].
+  - intros m t0 t _ H0 Ht. apply (IH m t0 t H0 Ht).
+  - intros t0 t H0 Ht. split; auto. pose proof (IH n t0 t H0 Ht) as HI.
+    rewrite Hrest in Ht by lia. rewrite H0 in Ht; inversion Ht; subst t.
+    rewrite Forall_forall in Hinit. destruct (Hinit t0 (nth_error_In _ _ H0)) as [Hp _]. rewrite Hp in HI. exact HI.
+Qed.
+
+Lemma proj_snoc tid evs e : proj tid (evs ++ [e]) = proj tid evs ++ (if fst e =? Z.of_nat tid then [e] else []).
+Proof. unfold proj. rewrite filter_app. simpl. destruct (fst e =? Z.of_nat tid); reflexivity. Qed.
+
+Lemma grant_E g tid : GI g -> EI g -> EI (grant draw b g tid).
+Proof.
+  intros HG HE. unfold grant.
+  destruct (nth_error (g_tasks g) tid) as [t|] eqn:Et; [|exact HE].
+  destruct (t_prog t) as [|lb k|a k|c km kh] eqn:Ep; try exact HE.
+  set (g1 := {| g_sh := g_sh g; g_tasks := g_tasks g; g_events := (Z.of_nat tid, lb) :: g_events g |}).
+  destruct HG as [Hsh HF].
+  assert (HG1 : GW g1).
+  { split; auto. simpl. eapply Forall2_impl'; [|exact HF]. simpl; tauto. }
+  apply settle_task_E; [exact HG1| |].
+  - intros m t0m tm Hne H0 Hm. simpl in Hm. simpl g_events. simpl rev. rewrite proj_snoc. simpl fst.
+    assert (Hz : Z.of_nat tid =? Z.of_nat m = false) by (apply Z.eqb_neq; intros Hx; apply Nat2Z.inj in Hx; auto).
+    rewrite Hz, app_nil_r. apply (HE m t0m tm H0 Hm).
+  - intros t0 t' H0 Ht'. simpl in Ht'. rewrite Et in Ht'; inversion Ht'; subst t'.
+    destruct (Forall2_nth_error _ _ _ _ _ HF Et) as (t0' & E0' & HW & _).
+    pose proof (w_local _ _ HW) as Hl. rewrite Ep in Hl. simpl in Hl. split; auto.
+    simpl g_events. simpl rev. rewrite proj_snoc. simpl fst. rewrite Z.eqb_refl.
+    rewrite <- (HE tid t0 t H0 Et). rewrite Ep. simpl. rewrite <- app_assoc. reflexivity.
+Qed.
+
 Definition fin (t0 : task) : task :=
   with_prog t0 PDone (lexec draw (t_idx t0) (t_part t0) p0 (t_l t0)).
 
@@ -459,6 +570,26 @@ Proof.
   intros t0 t [[HW _] Hp].
   destruct HW as [Wi Wp Wc Wl Wv Wd Wn]. rewrite Hp in Wd. unfold lexec at 1 in Wd. simpl in Wd.
   unfold fin, with_prog. destruct t; simpl in *; subst; reflexivity.
+Qed.
+
+Lemma run_sched_E sched : forall g, GI g -> EI g -> EI (run_sched draw b sched g).
+Proof.
+  unfold run_sched. induction sched as [|tid sched IH]; simpl; intros g HG HE; auto.
+  apply IH; [apply grant_GI; auto | apply grant_E; auto].
+Qed.
+
+Theorem local_job_events sched :
+  let g := run_sched draw b (sched ++ drain_sched p0 (length tasks0))
+             (start_all draw b p0 {| g_sh := shs; g_tasks := tasks0; g_events := [] |}) in
+  forall tid t0, nth_error tasks0 tid = Some t0 ->
+  proj tid (rev (g_events g)) = tag tid (ltrace (t_idx t0) (t_part t0) p0 (t_l t0)).
+Proof.
+  intros g tid t0 H0.
+  assert (HE : EI g).
+  { apply run_sched_E; [apply start_all_GI | apply (start_prefix_E (length tasks0) (le_n _))]. }
+  destruct (local_job_final sched) as [_ Ht]. fold g in Ht.
+  assert (Hn : nth_error (g_tasks g) tid = Some (fin t0)) by (rewrite Ht, nth_error_map, H0; reflexivity).
+  pose proof (HE tid t0 (fin t0) H0 Hn) as H. simpl in H. rewrite app_nil_r in H. exact H.
 Qed.
 
 End Global.
@@ -680,6 +811,39 @@ Proof.
   destruct (local_job_final draw b p0 Hp0 tasks0 shs Hslot Hinit sched) as [H1 H2].
   rewrite Hlen in H1, H2.
   split; [exact H1|]. rewrite H2. unfold tasks0. rewrite mapi_from_spec, map_map. reflexivity.
+Qed.
+
+Lemma nth_error_mapi_from {B C} (f : nat -> B -> C) l : forall a n x,
+  nth_error l n = Some x -> nth_error (mapi_from f a l) n = Some (f (a + n)%nat x).
+Proof.
+  induction l as [|y l IH]; intros a [|n] x H; simpl in *; try discriminate.
+  - inversion H; subst. rewrite Nat.add_0_r. reflexivity.
+  - rewrite (IH (S a) n x H). f_equal. f_equal. lia.
+Qed.
+
+(* the events of a job whose task program is local: task by task, the line sequence of the task's own run *)
+Theorem job_events b p0 sched driver sh :
+  prog_local p0 = true ->
+  let g := run_sched draw b (sched ++ drain_sched p0 (length parts))
+             (start_all draw b p0 (init_state b p0 parts driver sh)) in
+  forall tid part, nth_error parts tid = Some part ->
+  proj tid (rev (g_events g)) =
+  tag tid (ltrace draw (Z.of_nat tid) part p0 (t_l (init_task p0 driver tid part))).
+Proof.
+  intros Hp0 g tid part Hn. unfold g. rewrite init_state_eq.
+  set (shs := match b with InProcess => [sh] | Copying => map (fun _ => sh) parts end).
+  set (tasks0 := mapi_from (init_task p0 driver) 0 parts).
+  assert (Hlen : length tasks0 = length parts) by apply mapi_from_length.
+  assert (Hslot : forall tid, (tid < length tasks0)%nat -> exists s, nth_error shs (slot b tid) = Some s).
+  { intros m Hlt. unfold shs. destruct b; simpl.
+    - eauto.
+    - destruct (nth_error (map (fun _ => sh) parts) m) eqn:E; eauto.
+      apply nth_error_None in E. rewrite map_length in E. lia. }
+  assert (Hinit : Forall (fun t0 => t_prog t0 = p0 /\ val_local (t_l t0)) tasks0).
+  { unfold tasks0. rewrite mapi_from_spec. apply Forall_forall. intros t Ht.
+    apply in_map_iff in Ht as (ip & <- & _). split; reflexivity. }
+  pose proof (local_job_events draw b p0 Hp0 tasks0 shs Hslot Hinit sched tid (init_task p0 driver tid part)) as H.
+  rewrite Hlen in H. apply H. unfold tasks0. apply (nth_error_mapi_from _ _ 0%nat tid part Hn).
 Qed.
 
 Lemma task_prog_local r tf : tfun_pure tf = true -> prog_local (task_prog today r tf) = true.
@@ -1036,6 +1200,311 @@ Proof.
 Qed.
 
 End ExactJobs.
+
+(* ------------------------------------------------------------------------------------------- *)
+(* on copies (process pools) every program -- local or not, variants and closure-filling task functions included --
+   is independent of the schedule: each task owns its copy of the "shared" objects *)
+Lemma nth_error_ext_eq {B} (l l' : list B) : (forall n, nth_error l n = nth_error l' n) -> l = l'.
+Proof.
+  revert l'; induction l as [|x l IH]; intros [|y l'] H; auto.
+  - specialize (H 0%nat); discriminate.
+  - specialize (H 0%nat); discriminate.
+  - pose proof (H 0%nat) as H0; simpl in H0; inversion H0; subst. f_equal. apply IH. intros n. apply (H (S n)).
+Qed.
+
+Section Copies.
+Variable draw : Z -> nat -> float.
+Variable p0 : prog.
+Variable tasks0 : list task.
+Variable sh0 : shared.
+Hypothesis Hinit : Forall (fun t0 => t_prog t0 = p0) tasks0.
+
+Lemma settle_gen idx part p : forall sh l p' sh' l',
+  settle draw idx part p sh l = (p', sh', l') ->
+  settled p' /\ (plen p' <= plen p)%nat /\ exec draw idx part p' sh' l' = exec draw idx part p sh l.
+Proof.
+  induction p as [|lb k IH|a k IH|c km IHm kh IHh]; simpl; intros sh l p' sh' l' E.
+  - inversion E; subst; simpl; auto.
+  - inversion E; subst; simpl; auto.
+  - destruct (do_act draw idx part a sh l) as [sh1 l1].
+    destruct (l_crash l1) eqn:Ec.
+    + inversion E; subst; simpl. repeat split; auto; lia.
+    + destruct (IH _ _ _ _ _ E) as (H1 & H2 & H3). auto.
+  - destruct (eval_cond idx c sh l).
+    + destruct (IHh _ _ _ _ _ E) as (H1 & H2 & H3). repeat split; auto; lia.
+    + destruct (IHm _ _ _ _ _ E) as (H1 & H2 & H3). repeat split; auto; lia.
+Qed.
+
+Record PInv (t0 : task) (sh : shared) (t : task) : Prop := {
+  p_idx : t_idx t = t_idx t0;
+  p_part : t_part t = t_part t0;
+  p_cm0 : t_cm0 t = t_cm0 t0;
+  p_dest : exec draw (t_idx t0) (t_part t0) (t_prog t) sh (t_l t) = exec draw (t_idx t0) (t_part t0) p0 sh0 (t_l t0);
+  p_len : (plen (t_prog t) <= plen p0)%nat
+}.
+
+Definition CInv (g : gstate) : Prop :=
+  length (g_tasks g) = length tasks0 /\
+  forall tid t0, nth_error tasks0 tid = Some t0 ->
+    exists sh t, nth_error (g_sh g) tid = Some sh /\ nth_error (g_tasks g) tid = Some t /\ PInv t0 sh t.
+
+Definition csettled (g : gstate) (tid : nat) : Prop :=
+  forall t, nth_error (g_tasks g) tid = Some t -> settled (t_prog t).
+
+Lemma settle_task_C g tid t0 sh t p :
+  CInv g -> nth_error tasks0 tid = Some t0 -> nth_error (g_sh g) tid = Some sh -> nth_error (g_tasks g) tid = Some t ->
+  PInv t0 sh t ->
+  exec draw (t_idx t0) (t_part t0) p sh (t_l t) = exec draw (t_idx t0) (t_part t0) (t_prog t) sh (t_l t) ->
+  (plen p <= plen (t_prog t))%nat ->
+  exists sh' t', settle_task draw Copying tid p g =
+                   {| g_sh := upd_nth (g_sh g) tid sh'; g_tasks := upd_nth (g_tasks g) tid t'; g_events := g_events g |} /\
+                 PInv t0 sh' t' /\ settled (t_prog t') /\ (plen (t_prog t') <= plen p)%nat.
+Proof.
+  intros HC H0 Hs Ht HP He Hl. unfold settle_task. simpl. rewrite Ht, Hs.
+  destruct (settle draw (t_idx t) (t_part t) p sh (t_l t)) as [[p' sh'] l'] eqn:E.
+  destruct (settle_gen _ _ _ _ _ _ _ _ E) as (H1 & H2 & H3).
+  exists sh', (with_prog t p' l'). split; [reflexivity|]. split; [|split]; simpl; auto.
+  destruct HP as [Pi Pp Pc Pd Pn]. constructor; simpl; auto.
+  - rewrite Pi, Pp in H3. rewrite H3, He. exact Pd.
+  - lia.
+Qed.
+
+Lemma CInv_upd g tid t0 sh' t' :
+  CInv g -> nth_error tasks0 tid = Some t0 -> PInv t0 sh' t' ->
+  CInv {| g_sh := upd_nth (g_sh g) tid sh'; g_tasks := upd_nth (g_tasks g) tid t'; g_events := g_events g |}.
+Proof.
+  intros [Hlen HC] H0 HP. split; simpl; [rewrite length_upd_nth; auto|].
+  intros m t0m Hm. destruct (Nat.eq_dec m tid) as [->|Hne].
+  - rewrite H0 in Hm; inversion Hm; subst t0m.
+    destruct (HC tid t0 H0) as (sh & t & Hs & Ht & _).
+    exists sh', t'. rewrite (nth_error_upd_nth_eq _ _ _ _ Hs), (nth_error_upd_nth_eq _ _ _ _ Ht). auto.
+  - destruct (HC m t0m Hm) as (sh & t & Hs & Ht & HPm).
+    exists sh, t. rewrite !nth_error_upd_nth_neq by auto. auto.
+Qed.
+
+Lemma CInv_events g ev : CInv g -> CInv {| g_sh := g_sh g; g_tasks := g_tasks g; g_events := ev |}.
+Proof. intros H; exact H. Qed.
+
+Lemma c_start_prefix n : (n <= length tasks0)%nat ->
+  let g := fold_left (fun g tid => settle_task draw Copying tid p0 g) (seq 0 n)
+                     {| g_sh := map (fun _ => sh0) tasks0; g_tasks := tasks0; g_events := [] |} in
+  CInv g /\ (forall tid, (tid < n)%nat -> csettled g tid) /\
+  (forall tid, (n <= tid)%nat -> nth_error (g_tasks g) tid = nth_error tasks0 tid /\
+                                nth_error (g_sh g) tid = nth_error (map (fun _ => sh0) tasks0) tid).
+Proof.
+  induction n as [|n IH]; intros Hn.
+  - simpl. split; [|split; [intros; lia | auto]].
+    split; [reflexivity|]. intros tid t0 H0. exists sh0, t0. split; [|split; auto].
+    + simpl. rewrite nth_error_map, H0. reflexivity.
+    + rewrite Forall_forall in Hinit. pose proof (Hinit t0 (nth_error_In _ _ H0)) as Hp.
+      constructor; auto; rewrite Hp; auto with arith.
+  - rewrite seq_S, fold_left_app. simpl.
+    destruct (IH ltac:(lia)) as (HC & Hs & Hrest). clear IH.
+    set (g := fold_left _ (seq 0 n) _) in *.
+    destruct (nth_error tasks0 n) as [t0|] eqn:E0; [|apply nth_error_None in E0; lia].
+    destruct (Hrest n (le_n _)) as [Et Es]. rewrite E0 in Et. rewrite nth_error_map, E0 in Es. simpl in Es.
+    destruct (proj2 HC n t0 E0) as (sh & t & Hs' & Ht' & HP). rewrite Es in Hs'; inversion Hs'; subst sh.
+    rewrite Et in Ht'; inversion Ht'; subst t.
+    assert (Hp : t_prog t0 = p0).
+    { rewrite Forall_forall in Hinit. apply (Hinit t0). eapply nth_error_In; eauto. }
+    destruct (settle_task_C g n t0 sh0 t0 p0 HC E0 Es Et HP) as (sh' & t' & Eg & HP' & Hset & Hlen').
+    { rewrite Hp; reflexivity. } { rewrite Hp; lia. }
+    rewrite Eg. split; [apply (CInv_upd g n t0); auto|]. split.
+    + intros tid Hlt t Ht. simpl in Ht. destruct (Nat.eq_dec tid n) as [->|Hne].
+      * rewrite (nth_error_upd_nth_eq _ _ _ _ Et) in Ht. inversion Ht as [Hteq]. rewrite <- Hteq. auto.
+      * rewrite nth_error_upd_nth_neq in Ht by auto. apply (Hs tid); auto; lia.
+    + intros tid Hle. simpl. rewrite !nth_error_upd_nth_neq by lia. apply Hrest; lia.
+Qed.
+
+Definition CI (g : gstate) : Prop := CInv g /\ forall tid, csettled g tid.
+
+Lemma c_start_all :
+  CI (start_all draw Copying p0 {| g_sh := map (fun _ => sh0) tasks0; g_tasks := tasks0; g_events := [] |}).
+Proof.
+  unfold start_all; simpl.
+  destruct (c_start_prefix (length tasks0) (le_n _)) as (HC & Hs & _).
+  split; auto. intros tid t Ht. apply (Hs tid); auto.
+  rewrite <- (proj1 HC). apply nth_error_Some. congruence.
+Qed.
+
+Lemma c_grant g tid : CI g ->
+  CI (grant draw Copying g tid) /\
+  (forall m, m <> tid -> nth_error (g_tasks (grant draw Copying g tid)) m = nth_error (g_tasks g) m) /\
+  (forall t, nth_error (g_tasks g) tid = Some t ->
+     exists t', nth_error (g_tasks (grant draw Copying g tid)) tid = Some t' /\
+                (t_prog t = PDone -> t' = t) /\
+                (t_prog t <> PDone -> (S (plen (t_prog t')) <= plen (t_prog t))%nat)).
+Proof.
+  intros [HC Hset]. unfold grant.
+  destruct (nth_error (g_tasks g) tid) as [t|] eqn:Et.
+  2:{ split; [split; auto|]. split; auto. intros; discriminate. }
+  assert (Hlt : (tid < length tasks0)%nat) by (rewrite <- (proj1 HC); apply nth_error_Some; congruence).
+  destruct (nth_error tasks0 tid) as [t0|] eqn:E0; [|apply nth_error_None in E0; lia].
+  destruct (proj2 HC tid t0 E0) as (sh & t1 & Hs & Ht1 & HP). rewrite Et in Ht1; inversion Ht1; subst t1.
+  pose proof (Hset tid t Et) as Hst.
+  destruct (t_prog t) as [|lb k|a k|c km kh] eqn:Ep; simpl in Hst; try tauto.
+  - split; [split; auto|]. split; auto. intros t1 E1; inversion E1; subst. exists t1; split; auto. split; auto. congruence.
+  - set (g1 := {| g_sh := g_sh g; g_tasks := g_tasks g; g_events := (Z.of_nat tid, lb) :: g_events g |}).
+    destruct (settle_task_C g1 tid t0 sh t k HC E0 Hs Et HP) as (sh' & t' & Eg & HP' & Hset' & Hlen').
+    { rewrite Ep. reflexivity. } { rewrite Ep. simpl. lia. }
+    rewrite Eg. split; [split|].
+    + apply (CInv_upd g1 tid t0); auto.
+    + intros m tm Hm. simpl in Hm. destruct (Nat.eq_dec m tid) as [->|Hne].
+      * rewrite (nth_error_upd_nth_eq _ _ _ _ Et) in Hm. inversion Hm as [Hteq]. rewrite <- Hteq. auto.
+      * rewrite nth_error_upd_nth_neq in Hm by auto. apply (Hset m); auto.
+    + simpl. split.
+      * intros m Hm. apply nth_error_upd_nth_neq; auto.
+      * intros t1 E1; inversion E1; subst t1. exists t'. split; [eapply nth_error_upd_nth_eq; eauto|].
+        split; [intros Hx; try rewrite Ep in Hx; discriminate Hx|]. intros _. try rewrite Ep. simpl. lia.
+Qed.
+
+Lemma c_run_sched sched : forall g, CI g -> CI (run_sched draw Copying sched g).
+Proof.
+  unfold run_sched. induction sched as [|tid sched IH]; simpl; intros g HG; auto.
+  apply IH. apply c_grant; auto.
+Qed.
+
+Lemma c_grant_done g tid m : CI g -> done_at g m -> done_at (grant draw Copying g tid) m.
+Proof.
+  intros HG Hd. destruct (c_grant g tid HG) as (_ & Ho & Hs).
+  destruct (Nat.eq_dec m tid) as [->|Hne].
+  - intros t' Ht'. destruct (nth_error (g_tasks g) tid) as [t|] eqn:Et.
+    + destruct (Hs t eq_refl) as (t1 & E1 & Hsame & _). rewrite E1 in Ht'; inversion Ht'; subst.
+      rewrite (Hsame (Hd t Et)). apply (Hd t Et).
+    + unfold grant in Ht'. rewrite Et in Ht'. congruence.
+  - intros t Ht. rewrite Ho in Ht by auto. apply Hd; auto.
+Qed.
+
+Lemma c_run_sched_done sched : forall g m, CI g -> done_at g m -> done_at (run_sched draw Copying sched g) m.
+Proof.
+  unfold run_sched. induction sched as [|tid sched IH]; simpl; intros g m HG Hd; auto.
+  apply IH; [apply c_grant; auto | apply c_grant_done; auto].
+Qed.
+
+Lemma c_repeat_progress tid : forall n g, CI g ->
+  forall t, nth_error (g_tasks g) tid = Some t ->
+  exists t', nth_error (g_tasks (run_sched draw Copying (repeat tid n) g)) tid = Some t' /\
+             (t_prog t' = PDone \/ (plen (t_prog t') + n <= plen (t_prog t))%nat).
+Proof.
+  unfold run_sched. induction n as [|n IH]; simpl; intros g HG t Ht.
+  - exists t; split; auto. right; lia.
+  - destruct (c_grant g tid HG) as (HG' & _ & Hs).
+    destruct (Hs t Ht) as (t1 & E1 & Hsame & Hprog).
+    destruct (IH _ HG' t1 E1) as (t' & E' & Hd). exists t'; split; auto.
+    destruct Hd as [Hd|Hd]; auto.
+    destruct (t_prog t) eqn:Ep.
+    + left. rewrite (Hsame eq_refl) in Hd. rewrite Ep in Hd. simpl in Hd.
+      pose proof (c_run_sched (repeat tid n) _ HG') as [_ Hset2]. unfold run_sched in Hset2.
+      apply plen_settled_zero; [apply (Hset2 tid); auto | lia].
+    + right. assert (Hne : PGate label p <> PDone) by discriminate. specialize (Hprog Hne). lia.
+    + right. assert (Hne : PAct a p <> PDone) by discriminate. specialize (Hprog Hne). lia.
+    + right. assert (Hne : PIf c p1 p2 <> PDone) by discriminate. specialize (Hprog Hne). lia.
+Qed.
+
+Lemma c_drain_prefix n : forall g, CI g -> (n <= length tasks0)%nat ->
+  let g' := run_sched draw Copying (drain_sched p0 n) g in
+  CI g' /\ forall tid, (tid < n)%nat -> done_at g' tid.
+Proof.
+  induction n as [|n IH]; intros g HG Hn.
+  - simpl. split; auto. intros; lia.
+  - unfold drain_sched. rewrite seq_S, flat_map_app. simpl. rewrite app_nil_r.
+    unfold run_sched. rewrite fold_left_app.
+    destruct (IH g HG ltac:(lia)) as (HG1 & Hdone). unfold drain_sched, run_sched in HG1, Hdone.
+    set (g1 := fold_left (grant draw Copying) (flat_map _ (seq 0 n)) g) in *.
+    split; [apply (c_run_sched (repeat n (plen p0))); auto|].
+    intros tid Hlt. destruct (Nat.eq_dec tid n) as [->|Hne].
+    + intros t' Ht'.
+      destruct (nth_error tasks0 n) as [t0|] eqn:E0; [|apply nth_error_None in E0; lia].
+      destruct (proj2 (proj1 HG1) n t0 E0) as (sh & t & Hs & Et & HP).
+      destruct (c_repeat_progress n (plen p0) g1 HG1 t Et) as (t1 & E1 & Hd).
+      unfold run_sched in E1. rewrite E1 in Ht'; inversion Ht'; subst t1.
+      destruct Hd as [Hd|Hd]; auto.
+      pose proof (p_len _ _ _ HP) as Hl.
+      pose proof (c_run_sched (repeat n (plen p0)) _ HG1) as [_ Hset2]. unfold run_sched in Hset2.
+      apply plen_settled_zero; [apply (Hset2 n); auto | lia].
+    + apply (c_run_sched_done (repeat n (plen p0))); auto. apply Hdone; lia.
+Qed.
+
+Definition cfin (t0 : task) : task :=
+  with_prog t0 PDone (snd (exec draw (t_idx t0) (t_part t0) p0 sh0 (t_l t0))).
+
+Theorem copies_job_final sched :
+  let g := run_sched draw Copying (sched ++ drain_sched p0 (length tasks0))
+             (start_all draw Copying p0 {| g_sh := map (fun _ => sh0) tasks0; g_tasks := tasks0; g_events := [] |}) in
+  g_tasks g = map cfin tasks0.
+Proof.
+  unfold run_sched. rewrite fold_left_app.
+  pose proof (c_run_sched sched _ c_start_all) as HG1. unfold run_sched in HG1.
+  destruct (c_drain_prefix (length tasks0) _ HG1 (le_n _)) as ([[Hlen HC] _] & Hdone).
+  unfold run_sched in *. set (g := fold_left (grant draw Copying) (drain_sched p0 (length tasks0)) _) in *.
+  apply nth_error_ext_eq. intros n. rewrite nth_error_map.
+  destruct (nth_error tasks0 n) as [t0|] eqn:E0; simpl.
+  - destruct (HC n t0 E0) as (sh & t & Hs & Et & HP). rewrite Et. f_equal.
+    assert (Hp : t_prog t = PDone). { apply (Hdone n); auto. apply nth_error_Some. congruence. }
+    destruct HP as [Pi Pp Pc Pd Pn]. rewrite Hp in Pd. simpl in Pd.
+    unfold cfin, with_prog. rewrite <- Pd. simpl. destruct t; simpl in *; subst; reflexivity.
+  - apply nth_error_None. rewrite Hlen. apply nth_error_None. exact E0.
+Qed.
+
+End Copies.
+
+Theorem copies_sched_indep draw parts v r tf driver sh s1 s2 :
+  let o1 := run_job draw Copying v r tf parts s1 driver sh in
+  let o2 := run_job draw Copying v r tf parts s2 driver sh in
+  o_results o1 = o_results o2 /\ o_driver o1 = o_driver o2 /\ o_stamped o1 = o_stamped o2 /\
+  o_shared o1 = sh /\ o_shared o2 = sh.
+Proof.
+  unfold run_job. set (p0 := task_prog v r tf).
+  assert (Hinit : Forall (fun t0 => t_prog t0 = p0) (mapi_from (init_task p0 driver) 0 parts)).
+  { rewrite mapi_from_spec. apply Forall_forall. intros t Ht. apply in_map_iff in Ht as (ip & <- & _). reflexivity. }
+  assert (Hsh : map (fun _ : task => sh) (mapi_from (init_task p0 driver) 0 parts) = map (fun _ => sh) parts).
+  { rewrite mapi_from_spec, map_map. clear. generalize 0%nat. induction parts; simpl; intros; f_equal; auto. }
+  pose proof (copies_job_final draw p0 _ sh Hinit s1) as H1.
+  pose proof (copies_job_final draw p0 _ sh Hinit s2) as H2.
+  rewrite mapi_from_length, Hsh in H1, H2.
+  simpl. unfold init_state. simpl. rewrite H1, H2. auto.
+Qed.
+
+(* ------------------------------------------------------------------------------------------- *)
+(* the property in one statement: whatever the pool does, a history of jobs returns job by job what the default
+   executor returns and leaves the same cache_obj *)
+Theorem history_pool_equals_default draw lin parts b js :
+  Forall (job_ok lin) js -> forall driver sh, cache_ok draw lin parts driver ->
+  run_jobs draw b today js parts driver sh = run_jobs_local draw today js parts driver sh.
+Proof.
+  induction 1 as [|[[r tf] sched] js [Hwf Htf] _ IH]; intros driver sh Hd; [reflexivity|].
+  simpl in Hwf, Htf. cbn [run_jobs run_jobs_local].
+  destruct (dist_job draw lin parts r tf driver Hwf Htf Hd b sched sh) as (Hr & Hc & Hs).
+  pose proof (dist_cache_eq_local draw lin parts r Hwf driver Hd tf Htf b sched sh) as Hcache.
+  destruct (local_job draw lin parts r tf driver sh Hwf Htf Hd) as (d' & E & Hd').
+  rewrite E in Hcache. cbn [fst snd] in Hcache. rewrite E.
+  rewrite Hs, Hcache, Hr. rewrite (IH d' sh Hd'). reflexivity.
+Qed.
+
+(* RDD.coalesce on any pool: the regrouping of the partitions' own data *)
+Definition got (rs : list (option (list Z))) : list (list Z) :=
+  map (fun x => match x with Some l => l | None => [] end) rs.
+
+Theorem coalesce_job draw lin parts r driver n :
+  wf lin r -> cache_ok draw lin parts driver -> forall b sched sh,
+  regroup n (got (o_results (run_job draw b today r FCollect parts sched driver sh))) =
+  regroup n (map (fun ip => eval draw r (Z.of_nat (fst ip)) (snd ip)) (combine (seq 0 (length parts)) parts)).
+Proof.
+  intros Hwf Hd b sched sh.
+  rewrite (proj1 (dist_job draw lin parts r FCollect driver Hwf eq_refl Hd b sched sh)).
+  unfold spec_results, got. rewrite map_map. reflexivity.
+Qed.
+
+(* events of a job: the grants given to task tid are, in order, the lines of that task's own uninterrupted run *)
+Theorem job_events_own_trace draw parts b v r tf sched driver sh :
+  prog_local (task_prog v r tf) = true ->
+  forall tid part, nth_error parts tid = Some part ->
+  proj tid (o_events (run_job draw b v r tf parts sched driver sh)) =
+  tag tid (ltrace draw (Z.of_nat tid) part (task_prog v r tf) (t_l (init_task (task_prog v r tf) driver tid part))).
+Proof.
+  intros Hp tid part Hn. unfold run_job. simpl.
+  exact (job_events draw parts b (task_prog v r tf) sched driver sh Hp tid part Hn).
+Qed.
 
 Theorem sample_job draw lin parts s fr r tf driver :
   wf lin r -> tfun_pure tf = true -> cache_ok draw lin parts driver ->
